@@ -2171,6 +2171,52 @@ def __unquote_args_sym(f: sym.Symbol, args: frozenset[sym.Symbol]):
     return f
 
 
+_INLINEABLE_BODY_OPS = frozenset(
+    {
+        NodeOp.CONST,
+        NodeOp.HOST_CALL,
+        NodeOp.HOST_FIELD,
+        NodeOp.INVOKE,
+        NodeOp.LOCAL,
+        NodeOp.MAP,
+        NodeOp.MAYBE_CLASS,
+        NodeOp.MAYBE_HOST_FORM,
+        NodeOp.QUOTE,
+        NodeOp.SET,
+        NodeOp.VAR,
+        NodeOp.VECTOR,
+        NodeOp.WITH_META,
+    }
+)
+
+
+def _can_substitute_inline_args(body: Node, params: Iterable[Binding]) -> bool:
+    """Return True if the argument forms of a call can be substituted for the
+    parameters of a function body without changing when they are evaluated.
+
+    An inlined call evaluates whatever form is substituted for a parameter wherever
+    the body mentions that parameter. That is only the same as calling the function
+    if the body evaluates every parameter exactly once, unconditionally, and in the
+    order the parameters are declared."""
+    param_names = [param.name for param in params]
+    seen: list[str] = []
+    is_straight_line = True
+
+    def walk(node: Node) -> None:
+        nonlocal is_straight_line
+        if node.op not in _INLINEABLE_BODY_OPS:
+            is_straight_line = False
+            return
+        if node.op == NodeOp.LOCAL:
+            assert isinstance(node, Local)
+            if node.name in param_names:
+                seen.append(node.name)
+        node.visit(walk)
+
+    walk(body)
+    return is_straight_line and seen == param_names
+
+
 def _inline_fn_ast(
     ctx: AnalyzerContext,
     form: llist.PersistentList | ISeq,
@@ -2201,6 +2247,14 @@ def _inline_fn_ast(
             "body expression",
             form=form,
         )
+
+    if not _can_substitute_inline_args(inline_arity.body.ret, inline_arity.params):
+        logger.log(
+            TRACE,
+            f"Not generating inline def for {name.name if name is not None else 'fn'}: "
+            "body does not evaluate each parameter exactly once, in order",
+        )
+        return None
 
     logger.log(
         TRACE, f"Generating inline def for {name.name if name is not None else 'fn'}"
